@@ -23,7 +23,7 @@ From PV.DSL Require Import Syntax Sem.
 From PV.Gen Require Import Algorithms_gen.
 From PV.Alg Require Import MainLift MainCorrect Unique.
 From PV.Block Require Import Mat RCF.
-From PV.Series Require Import InstRCF FockCorrect.
+From PV.Series Require Import InstRCF.
 Open Scope string_scope.
 
 (** C01: the kept matrix elements of U† H U are those of H_tilde *)
@@ -51,8 +51,9 @@ Theorem C07_fock_kept :
 Proof.
   intros k R0 r0 r1 add mul sub opp req Ro Rg CS blk keep cm keep_sym keep_refl keep_blk cm_blk
          keep_eucl E inv Hinv Hreal HinvP Hopp Hconj BA rflag fenv sol Hrf Hfe Hh Hz Hsol.
-  exact (@fock_kept k R0 _ _ _ _ _ _ _ _ Rg CS blk keep cm keep_sym keep_refl keep_blk cm_blk
-           keep_eucl E inv Hinv Hreal HinvP Hopp Hconj rflag fenv sol Hrf Hfe Hh Hz Hsol).
+  pose proof (rcf_wiring (keep_sym := keep_sym) keep_refl (keep_blk := keep_blk) (cm_blk := cm_blk)
+              Hinv Hreal HinvP Hopp Hconj keep_eucl rflag fenv Hrf Hfe Hh Hz) as W.
+  exact (kept_general (BA := BA) rflag fenv sol Hsol W).
 Qed.
 Print Assumptions C07_fock_kept.
 
@@ -81,8 +82,9 @@ Theorem C07_fock_eliminated :
 Proof.
   intros k R0 r0 r1 add mul sub opp req Ro Rg CS blk keep cm keep_sym keep_refl keep_blk cm_blk
          keep_eucl E inv Hinv Hreal HinvP Hopp Hconj BA rflag fenv sol Hrf Hfe Hh Hz Hsol.
-  exact (@fock_eliminated k R0 _ _ _ _ _ _ _ _ Rg CS blk keep cm keep_sym keep_refl keep_blk cm_blk
-           keep_eucl E inv Hinv Hreal HinvP Hopp Hconj rflag fenv sol Hrf Hfe Hh Hz Hsol).
+  pose proof (rcf_wiring (keep_sym := keep_sym) keep_refl (keep_blk := keep_blk) (cm_blk := cm_blk)
+              Hinv Hreal HinvP Hopp Hconj keep_eucl rflag fenv Hrf Hfe Hh Hz) as W.
+  exact (eliminated_general (BA := BA) rflag fenv sol Hsol W).
 Qed.
 Print Assumptions C07_fock_eliminated.
 
@@ -111,8 +113,10 @@ Theorem C07_fock_unitary :
 Proof.
   intros k R0 r0 r1 add mul sub opp req Ro Rg CS blk keep cm keep_sym keep_refl keep_blk cm_blk
          keep_eucl E inv Hinv Hreal HinvP Hopp Hconj BA rflag fenv sol Hrf Hfe Hh Hz Hsol.
-  exact (@fock_unitary k R0 _ _ _ _ _ _ _ _ Rg CS blk keep cm keep_sym keep_refl keep_blk cm_blk
-           keep_eucl E inv Hinv Hreal HinvP Hopp Hconj rflag fenv sol Hrf Hfe Hh Hz Hsol).
+  pose proof (rcf_wiring (keep_sym := keep_sym) keep_refl (keep_blk := keep_blk) (cm_blk := cm_blk)
+              Hinv Hreal HinvP Hopp Hconj keep_eucl rflag fenv Hrf Hfe Hh Hz) as W.
+  exact (Logic.conj (unitary_l_general (BA := BA) rflag fenv sol Hsol W)
+              (unitary_r_general (BA := BA) rflag fenv sol Hsol W)).
 Qed.
 Print Assumptions C07_fock_unitary.
 
@@ -141,8 +145,10 @@ Theorem C07_fock_adjoint :
 Proof.
   intros k R0 r0 r1 add mul sub opp req Ro Rg CS blk keep cm keep_sym keep_refl keep_blk cm_blk
          keep_eucl E inv Hinv Hreal HinvP Hopp Hconj BA rflag fenv sol Hrf Hfe Hh Hz Hsol.
-  exact (@fock_adjoint k R0 _ _ _ _ _ _ _ _ Rg CS blk keep cm keep_sym keep_refl keep_blk cm_blk
-           keep_eucl E inv Hinv Hreal HinvP Hopp Hconj rflag fenv sol Hrf Hfe Hh Hz Hsol).
+  pose proof (rcf_wiring (keep_sym := keep_sym) keep_refl (keep_blk := keep_blk) (cm_blk := cm_blk)
+              Hinv Hreal HinvP Hopp Hconj keep_eucl rflag fenv Hrf Hfe Hh Hz) as W.
+  exact (Logic.conj (adjoint_general (BA := BA) rflag fenv sol Hsol W)
+              (Ht_herm_general (BA := BA) rflag fenv sol Hsol W)).
 Qed.
 Print Assumptions C07_fock_adjoint.
 
@@ -172,8 +178,10 @@ Theorem C07_fock_gauge :
 Proof.
   intros k R0 r0 r1 add mul sub opp req Ro Rg CS blk keep cm keep_sym keep_refl keep_blk cm_blk
          keep_eucl E inv Hinv Hreal HinvP Hopp Hconj BA rflag fenv sol Hrf Hfe Hh Hz Hsol.
-  exact (@fock_gauge k R0 _ _ _ _ _ _ _ _ Rg CS blk keep cm keep_sym keep_refl keep_blk cm_blk
-           keep_eucl E inv Hinv Hreal HinvP Hopp Hconj rflag fenv sol Hrf Hfe Hh Hz Hsol).
+  pose proof (rcf_wiring (keep_sym := keep_sym) keep_refl (keep_blk := keep_blk) (cm_blk := cm_blk)
+              Hinv Hreal HinvP Hopp Hconj keep_eucl rflag fenv Hrf Hfe Hh Hz) as W.
+  exact (Logic.conj (gauge_general (BA := BA) rflag fenv sol Hsol W)
+              (main_least_action (BA := BA) rflag fenv sol Hsol W)).
 Qed.
 Print Assumptions C07_fock_gauge.
 
@@ -185,6 +193,6 @@ Print Assumptions C07_fock_gauge.
     not trivial. *)
 From PV.Series Require Import FockExample.
 Example C07_fock_hypotheses_satisfiable :
-  @wiring _ _ _ _ _ _ _ _ _ _ fx_BA fx_rflag fx_fenv fx_H
-  /\ ~ (ent (fx_H (cons 1%nat nil)) 0 1 == 0).
+  wiring (BA := fx_BA) fx_rflag fx_fenv fx_H
+  /\ ~ (ent (fx_H (cons 1%nat nil)) O (S O) == 0).
 Proof. split. exact fx_wiring. exact (proj2 (proj2 fx_nontrivial)). Qed.
